@@ -150,7 +150,7 @@ func (c *spliceInsert) Data() []byte {
 		for _, component := range c.components {
 			componentBytes := make([]byte, 1)
 			componentBytes[0] = component.ComponentTag()
-			if c.spliceImmediate {
+			if !c.spliceImmediate {
 				componentBytes = append(componentBytes, spliceTimeBytes(component.HasPTS(), component.PTS())...)
 			}
 			componentsBytes = append(componentsBytes, componentBytes...)
